@@ -91,7 +91,7 @@ def main(argv):
         for p in sorted(glob.glob(os.path.join(HERE, kind, "*.patch"))):
             pid = os.path.basename(p).split("-")[0].upper()
             jobs.append((p, pid, expect))
-    for m in sorted(glob.glob(os.path.join(VERIF, "seeded", "*", "meta.json"))):
+    for m in sorted(glob.glob(os.path.join(VERIF, "seeded", "[!_]*", "meta.json"))):
         meta = json.load(open(m))
         jobs.append((os.path.join(os.path.dirname(m), "patch.diff"), meta["property"].upper(), True))
     if cross:
